@@ -256,7 +256,37 @@ def _fact_key(f):
         return (f["text"], str(f["val"]))
 
 
+def bool_origin_facts(body, sym, facts, fs):
+    """`flag is True` where `flag` is a bool local assigned only literals (`let last = matches!(..)`, `let mut ok = false; if c { ok = true }`):
+    if exactly one definition stores that literal, the path went through it, so whatever holds at that definition held on this path
+    (expressions are values of single-assignment temporaries, they do not go stale).  Returns fs plus those facts, marked derived."""
+    if not getattr(body, "changed", False):
+        return fs
+    out = list(fs)
+    have = {_fact_key(f) for f in out}
+    for f in fs:
+        e = f["expr"]
+        if not (isinstance(e, tuple) and e and e[0] == "local" and f["val"] in (True, False)) or body.local_ty(e[1]) != "bool":
+            continue
+        defs = body.defs_of(e[1])
+        vals = [_def_variant(body, d) for d in defs]
+        if not defs or any(v not in (True, False) for v in vals):
+            continue
+        mine = [d for d, v in zip(defs, vals) if v is f["val"]]
+        if len(mine) != 1 or mine[0][1] not in body.live_blocks():
+            continue
+        for g in _facts_at_raw(body, sym, facts, mine[0][1]):
+            if _fact_key(g) not in have:
+                have.add(_fact_key(g))
+                out.append(dict(g, derived=True))
+    return out
+
+
 def path_facts(body, sym, facts, bb, depth=3):
+    return [bool_origin_facts(body, sym, facts, fs) for fs in _path_facts(body, sym, facts, bb, depth)]
+
+
+def _path_facts(body, sym, facts, bb, depth=3):
     """Fact sets, one per way of entering block bb: where several edges meet (an `A | B =>` arm, a shared exit), no single
     edge dominates, but each incoming edge carries its own facts.  A condition holds at bb if it holds in every set."""
     live = body.live_blocks()
@@ -288,7 +318,7 @@ def path_facts(body, sym, facts, bb, depth=3):
             if t["otherwise"] == join:
                 vals.add(None)
             edge = _edge_fact_dicts(body, sym, facts, p, vals)
-        for fs in path_facts(body, sym, facts, p, depth - 1):
+        for fs in _path_facts(body, sym, facts, p, depth - 1):
             alt = list(base)
             have = {_fact_key(f) for f in alt}
             for f in list(fs) + edge:
